@@ -108,6 +108,34 @@ theorem rnd_mono (n d n' d' : Nat) (hd : 0 < d) (hd' : 0 < d') (h : n * d' ≤ n
       _ ≤ 2 ^ 52 * 2 ^ kx := Nat.mul_le_mul_left _ (Nat.pow_le_pow_right (by omega) (by omega))
       _ ≤ roundDiv n' d' ky * 2 ^ kx := Nat.mul_le_mul_right _ hry
 
+/-- **The model rounds to binary64**: inside the domain (a positive value below 2^53, denominator
+    below 2^1000) the result has exactly 53 significant bits (`2^52 ≤ mant ≤ 2^53`, the upper end
+    being the next power of two), and by `rnd_err` it is within half a unit in the last place. -/
+theorem rnd_53_bits (n d : Nat) (hn : 0 < n) (hd : 0 < d) (hd' : d ≤ 2 ^ 1000)
+    (hdom : n < 2 ^ 53 * d) :
+    2 ^ 52 ≤ (rnd n d).mant ∧ (rnd n d).mant ≤ 2 ^ 53 := by
+  unfold rnd; rw [if_neg (by omega)]; simp only
+  have hP := fracBits_ok n d hn hd'
+  generalize hk : fracBits n d = k at *
+  have hfl := roundDiv_floor n d k
+  constructor
+  · have : 2 ^ 52 ≤ n * 2 ^ k / d := (Nat.le_div_iff_mul_le hd).mpr hP
+    omega
+  · by_cases hk0 : k = 0
+    · subst hk0
+      have : n * 2 ^ 0 / d < 2 ^ 53 := (Nat.div_lt_iff_lt_mul hd).mpr (by simpa using hdom)
+      omega
+    · have hmin := fracBits_min n d (k - 1) (by omega)
+      have h1 : n * 2 ^ (k - 1) < 2 ^ 52 * d := by omega
+      have h2 : n * 2 ^ k < 2 ^ 53 * d := by
+        have : k = (k - 1) + 1 := by omega
+        rw [this, Nat.pow_succ]
+        calc n * (2 ^ (k - 1) * 2) = n * 2 ^ (k - 1) * 2 := by ring
+          _ < 2 ^ 52 * d * 2 := Nat.mul_lt_mul_of_pos_right h1 (by omega)
+          _ = 2 ^ 53 * d := by ring
+      have : n * 2 ^ k / d < 2 ^ 53 := (Nat.div_lt_iff_lt_mul hd).mpr h2
+      omega
+
 theorem le_trans' {a b c : Dbl} (h1 : F64.le a b) (h2 : F64.le b c) : F64.le a c := by
   rw [le_iff_toQ] at *; exact le_trans h1 h2
 
